@@ -301,19 +301,21 @@ Lemma c03_chksum_align_orig_lemma :
   chksum_ub_orig 1 8 = true /\ chksum_ub_orig 4 64 = false /\ forall m l, chksum_ub m l = false.
 Proof. split; [reflexivity|]. split; reflexivity. Qed.
 
-(* the pseudo rows "header" / "trailer" of the message table: a well-formed looking message whose
-   MsgType is one of these texts makes factory create and decode an object that is not a Message *)
+(* the pseudo rows "header" / "trailer" of the message table (repaired by 408434c): with the old
+   lookup a well-formed looking message whose MsgType is one of these texts made factory create and
+   decode an object that is not a Message; now it is an unknown type like its near misses *)
 Definition pseudo_msg (mt : string) : list N :=
   bytes_of_string ("8=FIX.4.2|9=5|35=" ++ mt ++ "|49=A|56=B|34=7|10=000|")%string.
-Lemma c03_pseudo_msgtype_refuted_lemma :
+Lemma c03_pseudo_msgtype_orig_refuted_lemma :
   is_bytes (pseudo_msg "header") = true /\
-  c03_factory ex_ctx real_caps (pseudo_msg "header") false false = OOB site_pseudo_entry /\
-  c03_factory ex_ctx real_caps (pseudo_msg "trailer") true true = OOB site_pseudo_entry /\
+  c03_factory_orig ex_ctx real_caps (pseudo_msg "header") false false = OOB site_pseudo_entry /\
+  c03_factory_orig ex_ctx real_caps (pseudo_msg "trailer") true true = OOB site_pseudo_entry /\
+  c03_factory ex_ctx real_caps (pseudo_msg "header") false false = Exc EInvalidMessage /\
+  c03_factory ex_ctx real_caps (pseudo_msg "trailer") true true = Exc EInvalidMessage /\
   c03_pseudo real_caps (pseudo_msg "Header") = false /\ c03_pseudo real_caps (pseudo_msg "header1") = false /\
-  c03_pseudo real_caps (pseudo_msg "heade") = false /\ c03_pseudo real_caps (pseudo_msg "trailer ") = false /\
-  safe (c03_factory ex_ctx real_caps (pseudo_msg "header1") false false).
+  c03_pseudo real_caps (pseudo_msg "heade") = false /\ c03_pseudo real_caps (pseudo_msg "trailer ") = false.
 Proof.
   split; [vm_compute; reflexivity|]. split; [vm_compute; reflexivity|]. split; [vm_compute; reflexivity|].
   split; [vm_compute; reflexivity|]. split; [vm_compute; reflexivity|]. split; [vm_compute; reflexivity|].
-  split; [vm_compute; reflexivity|]. vm_compute. exact I.
+  split; [vm_compute; reflexivity|]. split; vm_compute; reflexivity.
 Qed.
